@@ -7,7 +7,10 @@ plus a fixed grid of larger permuted instances.  Oracle: invariants only (no exp
 import itertools
 import numpy as np
 
-from ..engine.explore import Outcome
+from ..engine.explore import Outcome, Refill, Holder
+
+_refill = Refill()
+_holder = Holder()
 
 PID = 'C17'
 TIMEOUT = 20.0
@@ -122,7 +125,14 @@ def check_case(case):
     for K in ks:
         for bound in ((1.0, 0.1) if case[0] == '1d-grid' else BOUNDS) if case[0] != 'big' else (np.inf, 0.3, 0.02):
             try:
-                xi, yi = kdt_match(x.copy(), y.copy(), K=K, distance_upper_bound=bound)
+                # (two consecutive calls on one object with different contents: once per case is enough)
+                x_in = _refill.primed(x, 'x', lambda b_: kdt_match(b_, y.copy(), K=K, distance_upper_bound=bound)) if trans == 0 else _refill(x, 'x')
+                y_in = _refill(y, 'y')
+                xi, yi = kdt_match(x_in, y_in, K=K, distance_upper_bound=bound)
+                for m_ in _holder.swap((xi, yi), 'kdt_match %s K=%d bound=%r' % (d, K, bound)):
+                    viols.append(('earlier-result-changed', m_))
+                if not (np.array_equal(x_in, x) and np.array_equal(y_in, y)):
+                    viols.append(('input-modified', '%s K=%d: a feature array was changed' % (d, K)))
             except Exception as e:
                 viols.append(('raise:%s:K=%s' % (type(e).__name__, 'one' if K == 1 else ('gt-rows' if K > len(Y) else 'le-rows')),
                               '%s K=%d bound=%r raised %r' % (d, K, bound, e)))
